@@ -970,8 +970,8 @@ class Exec:
         if isinstance(base, Namespace):
             return base.get(a)
         if isinstance(base, SuperProxy):
-            if ".super." + a in self.contracts:
-                return ("method_contract", base.obj, self.contracts[".super." + a])
+            if "=super." + a in self.contracts:       # explicit override of a modelled base method
+                return ("method_contract", base.obj, self.contracts["=super." + a])
             mro = base.obj._cls.mro()
             after = mro[mro.index(base.cls) + 1:] if base.cls in mro else mro
             for c in after:
